@@ -437,11 +437,32 @@ if SYMBOLIC:
     _install_symbolic()
 
 
+def _copy_slices(device):
+    """glue item 10: with SYMBOLIC slice bounds CrossHair returns a lazy *view* of a list (crosshair.simplestructs.SliceView), so the
+    result of `attribute[beg:end]` would change when the attribute is written later -- not Python semantics (a list slice is a
+    copy).  Restore them: copy the slice result.  For the plain interpreter this wrapper is the identity."""
+    if getattr(device.Attribute.__getitem__, '_vrt', False):
+        return
+    orig = device.Attribute.__getitem__
+
+    def __getitem__(self, key):
+        r = orig(self, key)
+        if isinstance(key, slice) and not isinstance(r, (str, bytes)):
+            return [x for x in r]
+        return r
+    __getitem__._vrt = True
+    __getitem__.__wrapped__ = orig
+    device.Attribute.__getitem__ = __getitem__
+
+
 def activate(*modules):
     """Called by a harness module after importing the cpppo modules it drives: de-log them (symbolic
     mode only)."""
     if SYMBOLIC:
         delog_all(*modules)
+        for m in modules:
+            if m.__name__ == 'cpppo.server.enip.device':
+                _copy_slices(m)
 
 
 def dump_stats():
